@@ -366,6 +366,9 @@ def aggregate(t):
         votes = [aggregate(a) for a in t[2]]
     elif k == "arith":
         votes = [aggregate(t[1]), aggregate(t[2])]
+    elif k == "leaf":
+        # literals of the statement vote "not an aggregate"; values, parameters and interval literals abstain
+        return False if t[1] in ("null", "literal", "systime") else None
     else:
         return None
     votes = [v for v in votes if v is not None]
